@@ -1026,6 +1026,7 @@ func execKvInner(in kvInput, scratch string, prog *kvProgress) (Case, error) {
 			// the wall-clock second changed during a call that used a relative expiry: the model
 			// cannot know which second the code read.  Keep the prefix only.
 			c.Notes = append(c.Notes, fmt.Sprintf("truncated at step %d: wall-clock second changed during a relative-expiry call", i))
+			k.collectLive(atomic.LoadInt64(&k.posted)) // drop what this uncompared call delivered
 			break
 		}
 		live := k.collectLive(atomic.LoadInt64(&k.posted))
